@@ -63,7 +63,7 @@ fn gamma(a: f64) -> f64 {
             / ((std::f64::consts::PI * a).sin()
                 * s
                 * 1.860_382_734_205_265_7
-                * ((a - 10.400511) / std::f64::consts::E).powf(0.5 - a))
+                * ((11.400511 - a) / std::f64::consts::E).powf(0.5 - a))
     } else {
         s += 1.0514237858172197 / a;
         s += -3.456870972220_1625 / (a + 1.0);
